@@ -32,6 +32,9 @@ CONTRACTS = {
         # ghost flag: `same` = "the two shapes satisfy the equality conditions" (for the converse direction)
         ghost_args=OD([('same', 'bool')]),
         returns='bool',
+        replay_call=("lambda m, a: m.SplineGeometry.__eq__("
+                     "type('A', (), {k.split('.', 1)[1]: v for k, v in a.items() if k.startswith('self.')})(), "
+                     "type('B', (), {k.split('.', 1)[1]: v for k, v in a.items() if k.startswith('other.')})())"),
         funcs={'pow10': (['int'], 'real')},
         locals={'chk_degree': ('list', 'bool'), 'chk_kv': ('list', 'bool'), 'chk_ctrlpts': ('list', 'bool'), 'chk': ('list', 'bool')},
         # class invariants of the two shapes (the per-direction arrays have one entry per parametric direction)
